@@ -181,7 +181,6 @@ func propertyTable() map[string]PropertyCfg {
 // (accumulators grown inside nested loops, byte buffers built by several helpers). They are
 // reported in the evidence as undecided, never as proved, and never as violations.
 var sweepUnclaimed = map[string]string{
-	"stlCharacterHandler.decode#type-assert[vi.(string)]": "the handler's table h.m is one of the BiMaps of stlCharacterCodeTables (all with string values); table facts are attached to package-level BiMaps named at the call, not to one held in a struct field: not decided",
 	"teletextCharacterDecoder.decode#index[d.c[i-0x20]]":  "page rows hold parity-stripped bytes (< 128, astikit.ByteParity), so the index stays below 96; carrying that fact from parsePacketData through the packet buffer to the row parser needs a two-level quantified invariant over map-held slices that the solvers stop discharging once contract calls havoc their frames: not decided (the index was proved before the frame treatment was made sound; see DESIGN.md section 4)",
 	"ReadFromTeletext#inv-step[loop1:inv3]":               "'the collected pages are non-nil' across the call of process: process writes the pointer-element heap only inside the buffer's own done-pages array, but its inferred frame is lost at its internal loop (no parameter-relative loop frame candidate yet): not decided; the obligations that depend on it (the receiver of page.parse) are proved under this invariant",
 	"ReadFromTeletext#inv-entry[loop2:inv2]":              "same invariant at the entry of the page-parsing loop: not decided",
